@@ -660,7 +660,9 @@ func (w *hpWrite) isFull() bool { return w.fpk == "N" && w.fdk == "N" && w.persi
 
 // viaEngine: does the call run through model.UpdateList (attribution only; the SPEC's reading of a
 // filter-less persisting write stays "replace")
-func (t *hpType) viaEngine(w *hpWrite) bool { return !w.isFull() || (w.remote && t.remoteFullViaEngine) }
+func (t *hpType) viaEngine(w *hpWrite) bool {
+	return !w.isFull() || (w.remote && t.remoteFullViaEngine)
+}
 
 // partialPart: "", "selector", "noop" (partial filter with elements only), "idless", "merge"
 func (t *hpType) partialPart(w *hpWrite) string {
